@@ -35,11 +35,16 @@
                          the connection closed                                  [ideal]
                   = FALSE start() dies outside its try                         [as coded]
      PoisonFAtParser = TRUE  alternative repair: such a target is already rejected by the parser
+     LateUpgradeReset = TRUE an upgrade request with a body that was answered (declined) before its
+                         body was complete: when the deferred upgrade takes effect afterwards,
+                         start() hands the buffered tail back to the parser           [ideal]
+                      = FALSE nobody switches the parser back: later requests are buffered in
+                         _message_tail for ever                                        [as coded]
      ResumeOnPop = FALSE is a spec-level mutant (queue never resumed) used by the self-test *)
 EXTENDS Integers, Sequences, FiniteSets, TLC
 
 CONSTANTS Alphabet, MaxItems, Cap, ResumeAt, HW, Behaviours, Timers, MaxDisc, MaxWPause,
-          MapPoisonP, GuardFactory, PoisonFAtParser, ResumeOnPop, KA, LG
+          MapPoisonP, GuardFactory, PoisonFAtParser, LateUpgradeReset, ResumeOnPop, KA, LG
 
 VARIABLES items, c, wire
 
@@ -74,7 +79,7 @@ Conn0 ==
      hid |-> 0, hbeh |-> "none", hpc |-> "none", hres |-> "none", hka |-> FALSE, hst |-> 0,
      hopen |-> FALSE, eager |-> FALSE, goPending |-> FALSE,
      ready |-> <<>>, iter |-> 0, cpu |-> "idle", now |-> 0,
-     escaped |-> "no", sawBad |-> FALSE,
+     escaped |-> "no", sawBad |-> FALSE, lateUp |-> FALSE,
      wOpen |-> 0, wIsOpen |-> FALSE, wLast |-> 0, wErr |-> FALSE, wireBad |-> FALSE,
      out |-> <<>>, sc |-> FALSE, raised |-> "no", wq |-> <<>>, exc |-> FALSE,
      hb |-> [i \in Ids |-> "none"]]
@@ -136,7 +141,8 @@ EofPayload(s, i) ==
     IN IF ~s1.qPaused THEN TResume(s1) ELSE s1
 
 (* ------------------------------------------------------------------ HttpRequestParser.feed_data *)
-\* parse pieces ppos+1..hi; call-local: out (messages), sc (should_close seen), raised
+\* parse pieces ppos+1..hi; call-local: out (messages), raised; sc = parser._seen_close (a closing
+\* message was emitted: any further line is "Data after Connection: close", in whatever call it arrives)
 RECURSIVE Parse(_, _)
 Parse(s, hi) ==
     IF s.ppos >= hi \/ s.raised # "no" THEN s
@@ -155,7 +161,7 @@ Parse(s, hi) ==
            ELSE IF it.kind = "poisonP" THEN
                 (IF MapPoisonP THEN RaiseBad
                  ELSE [s EXCEPT !.raised = "esc", !.ppos = hi, !.out = <<>>])
-           ELSE IF it.kind = "upgrade" THEN
+           ELSE IF it.kind = "upgrade" /\ NPc(it) = 1 THEN
                 [s EXCEPT !.out = Append(@, i), !.inFlight = @ + 1, !.ppos = @ + 1, !.pmode = "upg"]
            ELSE IF it.kind = "connect" THEN
                 \* CONNECT: the rest of this call is fed to the tunnel payload
@@ -170,7 +176,11 @@ Parse(s, hi) ==
                data == ~(it.chunked /\ last)
                s1 == [s EXCEPT !.ppos = @ + 1]
                s2 == IF data THEN FeedPayload(s1, i, 1) ELSE s1
-               s3 == IF last THEN EofPayload([s2 EXCEPT !.pmode = "line", !.pOpen = 0], i) ELSE s2
+               \* an upgrade request with a body: the upgrade takes effect when the body is complete
+               answered == s.cur = i /\ s.hid = 0            \* its response is already finished (lingering read)
+               s3 == IF last THEN EofPayload([s2 EXCEPT !.pmode = IF it.kind = "upgrade" THEN "upg" ELSE "line",
+                                                        !.lateUp = @ \/ (it.kind = "upgrade" /\ answered),
+                                                        !.pOpen = 0], i) ELSE s2
            IN Parse(s3, hi)
       [] s.pmode \in {"conn", "tun"} ->
            FeedPayload([s EXCEPT !.ppos = hi], s.pOpen, hi - s.ppos)
@@ -183,8 +193,8 @@ DataReceived(s0, hi) ==
     ELSE IF s.pmode \in {"upg", "conn"} THEN                          \* self._upgraded: keep in _message_tail
          (IF hi > s0.dpos /\ ~s.qPaused /\ SmallBuf THEN PauseQ(s) ELSE s)
     ELSE
-    LET p == Parse([s EXCEPT !.out = <<>>, !.sc = FALSE, !.raised = "no"], hi)
-        clean == [p EXCEPT !.out = <<>>, !.sc = FALSE, !.raised = "no"]
+    LET p == Parse([s EXCEPT !.out = <<>>, !.raised = "no"], hi)
+        clean == [p EXCEPT !.out = <<>>, !.raised = "no"]
     IN
     IF p.raised = "esc" THEN
          \* ValueError leaves data_received; the transport reports a fatal error and aborts
@@ -222,6 +232,22 @@ ForceClose(s) ==
         s2 == IF s1.spc = "wait" /\ s1.waiter = "pending"
               THEN Sched([s1 EXCEPT !.waiter = "cancelled"], "start") ELSE s1
     IN IF ~s.fclose /\ ~s2.tClosing THEN Sched([s2 EXCEPT !.tClosing = TRUE], "connlost") ELSE s2
+
+\* the upgrade was declined (or CONNECT answered): switch the parser back and hand the buffered tail
+\* (RequestHandler._message_tail) back to it; result has exc = TRUE if an exception left the parser
+DeclineUpgrade(s) ==
+    IF s.pmode \in {"upg", "conn"} /\ s.messages = <<>> /\ ~s.tLost
+    THEN LET u == [s EXCEPT !.pmode = IF s.pmode = "upg" THEN "line" ELSE "tun", !.lateUp = FALSE] IN
+         IF u.dpos > u.ppos
+         THEN LET p == Parse([u EXCEPT !.out = <<>>, !.raised = "no"], u.dpos)
+                  clean == [p EXCEPT !.out = <<>>, !.raised = "no"]
+                  msgs == IF p.raised = "bad" THEN <<0>> ELSE p.out
+                  q == [clean EXCEPT !.messages = @ \o msgs, !.sawBad = @ \/ p.raised = "bad"]
+                  q2 == IF Len(q.messages) >= Cap THEN PauseQ(q)
+                        ELSE IF q.qPaused THEN ResumeQ(q) ELSE q
+              IN IF p.raised = "esc" THEN [clean EXCEPT !.exc = TRUE] ELSE q2
+         ELSE u
+    ELSE s
 
 (* ------------------------------------------------------------------ transport side *)
 \* transport.feed(segment of n pieces)
@@ -324,8 +350,10 @@ SExit ==     \* if not force_close: transport.close()
               IN IF ~s.fclose /\ ~s.tClosing THEN Sched([s EXCEPT !.tClosing = TRUE], "connlost") ELSE s)
 
 Post(s) ==   \* after the lingering read: close() if the body is still incomplete; keep-alive decision
-    LET s1 == IF PayloadOpen(s, s.cur) /\ ~s.fclose THEN [s EXCEPT !.close = TRUE] ELSE s
-    IN IF s1.keepalive /\ ~s1.close /\ ~s1.fclose
+    LET s0 == IF LateUpgradeReset /\ s.lateUp THEN DeclineUpgrade(s) ELSE s
+        s1 == IF PayloadOpen(s0, s0.cur) /\ ~s0.fclose THEN [s0 EXCEPT !.close = TRUE] ELSE s0
+    IN IF s1.exc THEN [ForceClose([s1 EXCEPT !.exc = FALSE]) EXCEPT !.cpu = "s_exit"]
+       ELSE IF s1.keepalive /\ ~s1.close /\ ~s1.fclose
        THEN [s1 EXCEPT !.kaClose = s1.now + KA,
                        !.kaTimer = IF @ = 0 /\ Timers THEN s1.now + KA ELSE @,
                        !.cpu = "s_top"]
@@ -364,20 +392,8 @@ SLingWake == \* the pending payload.readany() was woken by data / EOF: it return
 (* ---- the handler task (_handle_request: handler, finish_response) *)
 Finish(s, st, ka) ==       \* finish_response(): declined-upgrade tail, prepare + write_eof, drain
     LET id == IF s.curErr /\ s.cur = 0 THEN 0 ELSE s.cur
-        \* the upgrade was declined (or CONNECT answered): hand the buffered tail back to the parser
-        t0 == IF s.pmode \in {"upg", "conn"} /\ s.messages = <<>> /\ ~s.tLost
-              THEN LET u == [s EXCEPT !.pmode = IF s.pmode = "upg" THEN "line" ELSE "tun"] IN
-                   IF u.dpos > u.ppos
-                   THEN LET p == Parse([u EXCEPT !.out = <<>>, !.sc = FALSE, !.raised = "no"], u.dpos)
-                            clean == [p EXCEPT !.out = <<>>, !.sc = FALSE, !.raised = "no"]
-                            msgs == IF p.raised = "bad" THEN <<0>> ELSE p.out
-                            q == [clean EXCEPT !.messages = @ \o msgs, !.sawBad = @ \/ p.raised = "bad"]
-                            q2 == IF Len(q.messages) >= Cap THEN PauseQ(q)
-                                  ELSE IF q.qPaused THEN ResumeQ(q) ELSE q
-                        IN IF p.raised = "esc" \/ q2.exc THEN [clean EXCEPT !.hres = "unhandled", !.exc = FALSE]
-                           ELSE q2
-                   ELSE u
-              ELSE s
+        d0 == DeclineUpgrade(s)
+        t0 == IF d0.exc THEN [d0 EXCEPT !.hres = "unhandled", !.exc = FALSE] ELSE d0
     IN
     IF t0.hres = "unhandled" THEN [t0 EXCEPT !.cpu = "h_done"]
     ELSE IF ~Writable(t0) THEN [t0 EXCEPT !.hres = "reset", !.cpu = "h_done"]
@@ -509,12 +525,14 @@ BadGets4xxAndClose ==
 NoOrphan ==
     Quiet => /\ c.messages = <<>>
              /\ c.spc \in {"wait", "linger"}
-             /\ (c.pmode = "line" => c.ppos = c.dpos)
+             /\ (c.pmode \in {"line", "upg"} => c.ppos = c.dpos)
 
 \* the code as it is: start() may have died on a hostile request-target (named deviation)
-NoOrphanAsCoded == c.spc = "dead" \/ NoOrphan
+Deviating == c.spc = "dead" \/ c.lateUp
+NoOrphanAsCoded == Deviating \/ NoOrphan
+NoLateUpgrade == ~(c.lateUp /\ c.cpu = "idle" /\ c.ready = <<>> /\ c.hid = 0 /\ ~c.tClosing /\ c.dpos > c.ppos)
 
-BadGetsAsCoded == c.spc = "dead" \/ BadGets4xxAndClose
+BadGetsAsCoded == c.spc = "dead" \/ c.lateUp \/ BadGets4xxAndClose
 
 NoEscape == c.escaped = "no"
 NoEscapeDR == c.escaped # "dr"          \* exception out of data_received
@@ -527,6 +545,9 @@ PauseCoherent ==
 NoStrandedTail ==
     ~(LoopIdle /\ ~c.tClosing /\ c.pmode = "line" /\ c.dpos > c.ppos
       /\ Len(c.messages) <= ResumeAt /\ c.tPaused /\ c.hid = 0)
+
+PauseCoherentAsCoded == Deviating \/ PauseCoherent
+NoStrandedTailAsCoded == Deviating \/ NoStrandedTail
 
 TypeOK == /\ c.dpos <= c.npos /\ c.ppos <= c.dpos
           /\ c.cpu \in {"idle", "s_top", "s_pop", "s_exit", "s_after", "s_ling", "s_lingw", "h_enter", "h_run", "h_done"}
